@@ -264,14 +264,18 @@ def _change_guards(ctx, rep, rule: str) -> None:
         l, r = first_if.test.left, first_if.test.comparators[0]
         keys = set()
         props = set()
-        for e in (l, r):
+
+        def denoted(e):  # what a local alias stands for (pure single-assignment locals expanded)
+            return ast.parse(A.expanded(msl.node, e), mode="eval").body
+
+        for e in (denoted(l), denoted(r)):
             nm, key = A.subscript_key(repo, m, e)
             if isinstance(key, str):
                 keys.add(key)
             if isinstance(e, ast.Attribute):
                 props.add(e.attr)
         returns = len(first_if.body) == 1 and isinstance(first_if.body[0], ast.Return)
-        upd = [n for n in A.walk_no_nested(msl.node) if isinstance(n, ast.Assign) and isinstance(n.targets[0], ast.Subscript) and A.subscript_key(repo, m, n.targets[0])[1] == "previous_grad_selector" and isinstance(n.value, ast.Attribute) and n.value.attr == "local_grad_selector"]
+        upd = [n for n in A.walk_no_nested(msl.node) if isinstance(n, ast.Assign) and isinstance(n.targets[0], ast.Subscript) and A.subscript_key(repo, m, n.targets[0])[1] == "previous_grad_selector" and isinstance(denoted(n.value), ast.Attribute) and denoted(n.value).attr == "local_grad_selector"]
         ok = keys == {"previous_grad_selector"} and props == {"local_grad_selector"} and returns and len(upd) == 1
         detail = f"early return guard `{ast.unparse(first_if.test)}`: compares the distributor's current local selector with state_lists[PREVIOUS_GRAD_SELECTOR] ({keys == {'previous_grad_selector'} and props == {'local_grad_selector'}}), returns ({returns}), and the remembered selector is updated on the other path ({len(upd) == 1})"
     rep.ob(rule, "change-guard:_mask_state_lists", ok, msl.loc(first_if) if first_if is not None else msl.loc(), detail, sample=True)
@@ -389,6 +393,70 @@ def every_group_visited(ctx, rep, rule: str) -> None:
         rep.ob(rule, "every-group-visited", not exits and not loop.orelse, step.loc(exits[0] if exits else loop), "the loop over the parameter groups in step() is left only by exhaustion" + (f"; found {[type(e).__name__ + '@' + str(e.lineno) for e in exits]}: every later group is skipped as well — its parameters have gradients but are not updated" if exits else ""), sample=True)
 
 
+def stateful_cursors_advance(ctx, rep, rule: str) -> None:
+    """A position in a per-block list that is tracked by a *stateful cursor* (an iterator consumed with next()/islice()) must not
+    depend on gradient presence: a parameter skipped because its gradient is None still occupies its entries of every
+    per-block list, so a cursor that is not advanced for it makes every later parameter read another parameter's entries.
+    (Index ranges taken from the zipped pairwise indices advance by construction.)"""
+    repo = ctx.repo
+    sp = spaces_engine(ctx)
+    n = 0
+    classes = [k for k in repo.classes.values() if k.module.name.endswith("distributor") or k.module.name.endswith("shampoo_preconditioner_list") or k is sp.ds]
+    for c in classes:
+        for fi in c.methods.values():
+            loops = [x for x in A.walk_no_nested(fi.node) if isinstance(x, ast.For)]
+            if not loops:
+                continue
+            iters = {t.id for st in A.walk_no_nested(fi.node) if isinstance(st, ast.Assign) and isinstance(st.value, ast.Call) and isinstance(st.value.func, ast.Name) and st.value.func.id == "iter" for t in st.targets if isinstance(t, ast.Name)}
+            if not iters:
+                continue
+            cfg = CFG(fi.node)
+            for loop in loops:
+                head = cfg.node_of(loop.iter)
+                if head is None or head.kind != "loop":
+                    continue
+                uses = [k for k in A.calls(ast.Module(body=loop.body, type_ignores=[]), nested=False) if isinstance(k.func, ast.Name) and k.func.id in ("next", "islice") and k.args and isinstance(k.args[0], ast.Name) and k.args[0].id in iters]
+                # only cursors created outside this loop and consumed inside it
+                uses = [k for k in uses if not any(isinstance(st, ast.Assign) and any(isinstance(t, ast.Name) and t.id == k.args[0].id for t in st.targets) for st in ast.walk(loop))]
+                for k in uses:
+                    kn = cfg.node_of(k)
+                    if kn is None or not any(lp is loop for lp in A.enclosing_loops(fi.node, k)[-1:]):
+                        continue
+                    # the cursor may legitimately advance only for *selected* items (a compressed list walked under its
+                    # selector); what it must not depend on is gradient presence: an item skipped because its gradient is
+                    # None still occupies its entries in every per-block list
+                    presence = [t for t, lab in cfg.branch_conditions(kn) if t.kind == "test" and any(isinstance(x, ast.Compare) and any(isinstance(o, (ast.Is, ast.IsNot)) for o in x.ops) and any(isinstance(cmp_, ast.Constant) and cmp_.value is None for cmp_ in x.comparators) for x in ast.walk(t.ast.test))]
+                    every = not presence
+                    n += 1
+                    rep.ob(rule, f"cursor-advances:{short(fi.qual)}@{c.name}:{k.args[0].id}", every, fi.loc(k), f"`{ast.unparse(k)[:60]}` consumes the cursor `{k.args[0].id}` in the per-item loop: whether it advances must not depend on gradient presence" + ("" if every else f" — it is skipped under `{ast.unparse(presence[0].ast.test)}`: the cursor falls behind and later parameters read other parameters' entries"), sample=True)
+    rep.notes["stateful cursors examined"] = n
+
+
+def gradients_read_after_closure(ctx, rep, rule: str) -> None:
+    """step(closure): the closure re-evaluates the model and produces this step's gradients, so everything that looks at
+    gradient presence (blocking, selector, masking) must run after it — the closure call is never reachable from a
+    gradient-blocking call."""
+    repo = ctx.repo
+    pts = ctx.engine("pts")
+    step = repo.method(DS, "step")
+    cfg = CFG(step.node)
+    closure_calls = [c for c in A.calls(step.node) if isinstance(c.func, ast.Name) and c.func.id == (step.params[1] if len(step.params) > 1 else "closure")]
+    readers = [c for c in A.calls(step.node) if any(q.endswith(".merge_and_block_gradients") or q.endswith("._mask_state_lists") for q in pts.callees(step.qual, c))]
+    rep.floor(rule, "closure call in step()", len(closure_calls), 1)
+    rep.floor(rule, "gradient-blocking calls in step()", len(readers), 1)
+    bad = []
+    for r in readers:
+        rn = cfg.node_of(r)
+        if rn is None:
+            continue
+        reach = cfg.reachable(rn)
+        for c in closure_calls:
+            cn = cfg.node_of(c)
+            if cn is not None and cn in reach and cn is not rn:
+                bad.append((r, c))
+    rep.ob(rule, "gradients-read-after-closure", not bad, step.loc(bad[0][0] if bad else (closure_calls[0] if closure_calls else None)), f"{len(readers)} gradient-blocking call(s), {len(closure_calls)} closure call(s) in step(): the closure never runs after gradients were blocked" + (f"; `{ast.unparse(bad[0][0])[:70]}` runs before `{ast.unparse(bad[0][1])}`: selector, masks and blocked gradients then describe the previous iteration's gradients" if bad else ""), sample=True)
+
+
 # ------------------------------------------------------------------------------------------------ C04.5
 def selector_construction(ctx, rep, rule: str) -> None:
     repo = ctx.repo
@@ -467,6 +535,9 @@ def run(ctx, rep) -> None:
     rep.attempt("writes_to_masked_only", writes_to_masked_only, ctx, rep, "C04.3")
     rep.attempt("empty_group_skips", empty_group_skips, ctx, rep, "C04.4")
     rep.attempt("every_group_visited", every_group_visited, ctx, rep, "C04.4")
+    rep.rule("C04.6", "step(closure): gradient presence is read (blocking, selector, masking) only after the closure has produced this step's gradients")
+    rep.attempt("gradients_read_after_closure", gradients_read_after_closure, ctx, rep, "C04.6")
     rep.attempt("selector_construction", selector_construction, ctx, rep, "C04.5")
+    rep.attempt("stateful_cursors_advance", stateful_cursors_advance, ctx, rep, "C04.5")
     rep.assume("seeds of the index-space typing (sv/spaces.py): _global_blocked_params:G, _distributor_selector:G->L, _global_grad_selector:G->GM, _local_grad_selector:L->LM, _merge_and_block_gradients():LM")
     rep.assume("bit-for-bit preservation of untouched tensors follows from C04.3 plus torch semantics (not decided here)")
